@@ -223,6 +223,21 @@ def check(prog, rep):
     if nsw < 4:
         raise AnalysisError(f"only {nsw} depth switches found")
     # entry points: recursive traversal methods must not be called directly on user trees outside the switches
+    # functions reached only from the recursive workers (which sit behind their switches) are behind the switch too
+    behind_switch = {"_build_evaluator", "_build_vector_evaluator", "_compute_degree_impl", "_compute_degree_cached", "_gradient_cached"}
+    callers = {}
+    for g in prog.functions.values():
+        for c_ in calls(g.node):
+            nm_ = dotted(c_.func)
+            if nm_ and "." not in nm_:
+                callers.setdefault(nm_, set()).add(g.name)
+    grew_ = True
+    while grew_:
+        grew_ = False
+        for nm_, who in callers.items():
+            if nm_ not in behind_switch and nm_.startswith("_") and who and who <= behind_switch | {nm_}:
+                behind_switch.add(nm_)
+                grew_ = True
     for fi in prog.functions.values():
         if fi.name == "get_variables" or fi.module.name not in ("optyx.problem", "optyx.analysis", "optyx.solvers.scipy_solver", "optyx.solvers.lp_solver", "optyx.constraints", "optyx.core.autodiff", "optyx.core.compiler", "optyx.core.expressions"):
             continue
@@ -234,8 +249,15 @@ def check(prog, rep):
                 if guarded or in_walker:
                     rep.ob("R15.4", f"{fi.qual.split(':')[1]}", True, f"{recv}.get_variables() is reached only below the depth threshold / from the iterative walker", loc=f"{fi.module.rel}:{c.lineno}", detail=f"call:{recv}", trivial=True)
                     continue
+                if fi.name in behind_switch:
+                    rep.ob("R15.4", f"{fi.qual.split(':')[1]}", True, f"{recv}.get_variables() is called from {fi.name}, which is only reached from a recursive worker behind its depth switch: the worker already recurses over the same tree", loc=f"{fi.module.rel}:{c.lineno}", detail=f"call:{recv}", trivial=True)
+                    continue
+                what = _user_tree(fi, c.func.value)
+                if what is None:
+                    rep.undecided(f"{fi.qual.split(':')[1]}: `{recv}.get_variables()` (line {c.lineno}) is not behind a depth switch; whether `{recv}` can be a deep user-built tree is not decided")
+                    continue
                 rep.ob("R15.4", f"{fi.qual.split(':')[1]}", False,
-                       f"{recv}.get_variables() recurses over a user-supplied tree without the depth switch (get_all_variables): a term-by-term accumulated {recv.split('.')[0]} deeper than the interpreter's recursion limit raises RecursionError",
+                       f"{recv}.get_variables() recurses over a user-supplied tree ({what}) without the depth switch (get_all_variables): a term-by-term accumulated {recv.split('.')[0]} deeper than the interpreter's recursion limit raises RecursionError",
                        loc=f"{fi.module.rel}:{c.lineno}", detail=f"call:{recv}")
     # degree / compile / gradient recursive workers are called only from their switches
     for worker, allowed in (("_compute_degree_impl", {"_compute_degree_cached", "_compute_degree_impl", "_compute_degree_iterative"}), ("_compute_degree_cached", {"compute_degree"}),
@@ -371,6 +393,26 @@ def _leaf_sig(arm, subj):
             if isinstance(n, ast.Call) and dotted(n.func) == "Constant" and n.args and isinstance(n.args[0], ast.Constant):
                 consts.append(n.args[0].value)
     return f"build-time reads {sorted(build)}, call-time reads {sorted(call_time)}, tests {sorted(cmps)}, constants {consts}"
+
+
+def _user_tree(fi, node):
+    """A description when `node` positively denotes an expression tree the user built (a problem's objective, a
+    constraint's expression, a constraint of the problem's list), read through single-assignment locals; else None."""
+    seen = 0
+    while isinstance(node, ast.Name) and seen < 4:
+        seen += 1
+        defs = [x for x in walk_local(fi.node) if isinstance(x, (ast.Assign, ast.AnnAssign)) and x.value is not None
+                and any(isinstance(t, ast.Name) and t.id == node.id for t in (x.targets if isinstance(x, ast.Assign) else [x.target]))]
+        loops = [x for x in walk_local(fi.node) if isinstance(x, (ast.For, ast.comprehension)) and isinstance(x.target, ast.Name) and x.target.id == node.id]
+        if len(defs) == 1 and not loops:
+            node = defs[0].value
+            continue
+        if loops and not defs and all(src(l.iter).endswith(("constraints", "_constraints")) for l in loops):
+            return f"an element of `{src(loops[0].iter)}`"
+        return None
+    if isinstance(node, ast.Attribute) and node.attr in ("expr", "objective", "_objective"):
+        return f"`{src(node)}`"
+    return None
 
 
 def _input_reads(arm):
